@@ -356,6 +356,10 @@ def normalize_url(
             qsl = sorted(qsl, key=qsl_sort_key)
 
     # Dropping fragment if it's not routing
+    # NOTE: the fragment is unescaped first so that a routing fragment is
+    # recognized however it was escaped
+    fragment = safely_unquote_fragment(fragment)
+
     if fragment and strip_fragment:
         if strip_fragment is True or not should_strip_fragment(fragment):
             fragment = ""
